@@ -115,9 +115,57 @@ TermInRange(t, q) ==
   /\ (q.haslo => IF q.loexcl THEN SeqLess(q.lo, t) ELSE (q.lo = t \/ SeqLess(q.lo, t)))
   /\ (q.hashi => IF q.hiexcl THEN SeqLess(t, q.hi) ELSE (q.hi = t \/ SeqLess(t, q.hi)))
 
+\* ---- span queries ------------------------------------------------------------------
+\* A span is <<start, end>> (positions, inclusive).  Spans(idx, d, q) is the set of spans query q
+\* has in document d; a span query matches a document iff that set is not empty.
+\*   term                    one span <<p, p>> per occurrence
+\*   or (of span-able kids)  every span of every kid
+\*   spanor                  the same, overlapping and touching spans merged into one
+\*   spanfirst q limit       the spans of q that end within the first positions (end <= limit)
+\*   spannear a b slop ordered mindist    for a span x of a and y of b with mindist <= distance <= slop
+\*                           (and x not starting after y when ordered): the span covering both
+\*   spannear2 kids ...      the same, folded over the list from the left
+\*   spannot a b             the spans of a that overlap no span of b
+\*   spancontains a b        the spans of a that contain some span of b
+\*   spanbefore a b          the spans of a that end before every span of b starts (b must occur)
+\*   spancond a b            the spans of a, if b matches the document
+SOverlaps(x, y) == ~(x[2] < y[1] \/ y[2] < x[1])
+SDist(x, y) == IF SOverlaps(x, y) THEN 0 ELSE IF x[2] < y[1] THEN y[1] - x[2] ELSE x[1] - y[2]
+SJoin(x, y) == <<IF x[1] < y[1] THEN x[1] ELSE y[1], IF x[2] > y[2] THEN x[2] ELSE y[2]>>
+SLinked(x, y) == SOverlaps(x, y) \/ x[1] = y[2] + 1 \/ y[1] = x[2] + 1
+\* merge: every maximal group of spans connected by overlapping / touching becomes one span
+RECURSIVE SGroup(_, _)
+SGroup(S, G) == LET more == {y \in S \ G : \E x \in G : SLinked(x, y)}
+                IN IF more = {} THEN G ELSE SGroup(S, G \cup more)
+SMerge(S) == {LET G == SGroup(S, {x}) IN
+                <<CHOOSE a \in {g[1] : g \in G} : \A g \in G : a <= g[1],
+                  CHOOSE b \in {g[2] : g \in G} : \A g \in G : b >= g[2]>> : x \in S}
+SNear(A, B, slop, ordered, mindist) ==
+  {SJoin(x, y) : <<x, y>> \in {p \in A \X B : /\ SDist(p[1], p[2]) >= mindist /\ SDist(p[1], p[2]) <= slop
+                                               /\ (ordered => p[1][1] <= p[2][1])}}
+RECURSIVE Spans(_, _, _), SFold(_, _, _, _, _)
+SFold(idx, d, q, i, acc) ==
+  IF i > Len(q.kids) THEN acc
+  ELSE SFold(idx, d, q, i + 1, SNear(acc, Spans(idx, d, q.kids[i]), q.slop, q.ordered, q.mindist))
+Spans(idx, d, q) ==
+  CASE q.op = "term" -> {<<p, p>> : p \in Positions(idx, d, q.f, q.t)}
+    [] q.op = "or" -> UNION {Spans(idx, d, q.kids[i]) : i \in DOMAIN q.kids}
+    [] q.op = "spanor" -> SMerge(UNION {Spans(idx, d, q.kids[i]) : i \in DOMAIN q.kids})
+    [] q.op = "spanfirst" -> {x \in Spans(idx, d, q.q) : x[2] <= q.limit}
+    [] q.op = "spannear" -> SNear(Spans(idx, d, q.a), Spans(idx, d, q.b), q.slop, q.ordered, q.mindist)
+    [] q.op = "spannear2" -> IF q.kids = <<>> THEN {} ELSE SFold(idx, d, q, 2, Spans(idx, d, q.kids[1]))
+    [] q.op = "spannot" -> LET B == Spans(idx, d, q.b) IN {x \in Spans(idx, d, q.a) : \A y \in B : ~SOverlaps(x, y)}
+    [] q.op = "spancontains" -> LET B == Spans(idx, d, q.b) IN
+                                {x \in Spans(idx, d, q.a) : \E y \in B : y[1] >= x[1] /\ y[2] <= x[2]}
+    [] q.op = "spanbefore" -> LET B == Spans(idx, d, q.b) IN
+                              IF B = {} THEN {} ELSE {x \in Spans(idx, d, q.a) : \A y \in B : x[2] < y[1]}
+    [] q.op = "spancond" -> IF Spans(idx, d, q.b) = {} THEN {} ELSE Spans(idx, d, q.a)
+SpanOps == {"spanor", "spanfirst", "spannear", "spannear2", "spannot", "spancontains", "spanbefore", "spancond"}
+
 RECURSIVE Denote(_, _)
 Denote(idx, q) ==
   CASE q.op = "term" -> TermM(idx, q.f, q.t, q.b4)
+    [] q.op \in SpanOps -> Const({d \in Live(idx) : Spans(idx, d, q) # {}}, Unit)
     [] q.op = "null" -> Empty
     [] q.op = "every" ->
          IF q.f = "" THEN Const(Live(idx), Scale(Unit, q.b4))
